@@ -65,6 +65,9 @@ pub struct Case {
     pub summary: String,
     pub nontrivial: bool,
     pub classes: Vec<&'static str>,
+    /// `'static` leg: the same item with an application type that satisfies every declared bound but borrows for `'a`;
+    /// (program that must be rejected, its `'static` twin that must compile)
+    pub static_probe: (String, String),
 }
 
 pub fn gen_case(t: &mut Tape, feature_unimock: bool) -> Case {
@@ -177,6 +180,21 @@ pub fn gen_case(t: &mut Tape, feature_unimock: bool) -> Case {
         expected.push((p.name.clone(), qualifies && !mockable));
         expected.push((format!("::entrait::Impl<{}>", p.name), qualifies));
     }
+    let static_probe = {
+        let mut sp = src.clone();
+        let clone = declared.contains(&4);
+        sp.push_str(&format!("{}pub struct XBorrowed<'a>(pub &'a u8);\n", if clone { "#[derive(Clone)] " } else { "" }));
+        for &b in &declared {
+            if b != 4 {
+                let tr = POOL[b];
+                sp.push_str(&format!("impl<'a> {tr} for XBorrowed<'a> {{}}\nimpl<'a> {tr} for ::entrait::Impl<XBorrowed<'a>> {{}}\n"));
+            }
+        }
+        sp.push_str("fn needs<T: TheTrait>(_: &T) {}\n");
+        let neg = format!("{sp}pub fn probe<'a>(x: &'a u8) {{ let app = ::entrait::Impl::new(XBorrowed(x)); needs(&app); }}\npub fn run() -> Vec<String> {{ vec![] }}\n");
+        let pos = format!("{sp}pub fn probe(x: &'static u8) {{ let app = ::entrait::Impl::new(XBorrowed(x)); needs(&app); }}\npub fn run() -> Vec<String> {{ vec![] }}\n");
+        (neg, pos)
+    };
     src.push_str("pub fn run() -> Vec<String> {\n    let mut fails = vec![];\n");
     for (ty, want) in &expected {
         src.push_str(&format!(
@@ -205,7 +223,7 @@ pub fn gen_case(t: &mut Tape, feature_unimock: bool) -> Case {
         declared.iter().map(|b| POOL[*b]).collect::<Vec<_>>(),
         if feature_unimock { "feature unimock" } else { "no features" }
     );
-    Case { src, summary, nontrivial, classes }
+    Case { src, summary, nontrivial, classes, static_probe }
 }
 
 
@@ -234,7 +252,7 @@ pub fn run(ctx: &mut Ctx) {
                 `X: TheTrait` and `Impl<X>: TheTrait` at run time for a family of types (full, one per missing bound, all-pool, !Sync, Sync+!Send) and compares with the spec; \
                 non-trivial = >=2 declared bounds, a split declaration, or module fns with different bounds (every case has probes expected true and probes expected false); distinct = distinct program text"
         .into();
-    ctx.assumptions.push("`'static` cannot be probed at run time (trait selection ignores lifetimes); mock derivations stay un-exported (inert) here, C10/C11 observe the mock type".into());
+    ctx.assumptions.push("`'static` cannot be probed at run time (trait selection ignores lifetimes): it is a compile probe on the first 120 (thorough: 600) cases per feature setting - `Impl<XBorrowed<'a>>: TheTrait` must be rejected, the `'static` twin must compile; mock derivations stay un-exported (inert) here, C10/C11 observe the mock type".into());
     let n = ctx.n(1500, 12000) as usize;
     for feature_unimock in [false, true] {
         let tapes = crate::drive::gen_tapes(ctx.seed, 400 + feature_unimock as u64, n, TAPE_LEN);
@@ -292,6 +310,9 @@ pub fn run(ctx: &mut Ctx) {
             );
             return;
         }
+        if !static_leg(ctx, feature_unimock, &cases) {
+            return;
+        }
         // programs that do not compile are judged after the runnable ones, against their attribute-free twin
         let failed: Vec<(String, String, String, String)> = out
             .compile_failed
@@ -311,9 +332,65 @@ pub fn run(ctx: &mut Ctx) {
     }
 }
 
+/// `'static`: for the first cases of the batch, `Impl<XBorrowed<'a>>: TheTrait` must be rejected for a caller-chosen `'a`
+/// (compile probe; the twin with `'static` must compile, otherwise the probe itself is at fault)
+fn static_leg(ctx: &mut Ctx, feature_unimock: bool, cases: &[Case]) -> bool {
+    let k = if ctx.quick() { 120 } else { 600 }.min(cases.len());
+    let mut batch = Batch::new(&format!("c04-static-{}", if feature_unimock { "unimock" } else { "plain" }), Opts { feature_unimock, members: 16, check_only: true, ..Default::default() });
+    for (i, c) in cases.iter().take(k).enumerate() {
+        batch.add(&format!("n{i:05}"), c.static_probe.0.clone());
+        batch.add(&format!("p{i:05}"), c.static_probe.1.clone());
+    }
+    let out = batch.build_and_run();
+    batch.cleanup();
+    for (i, c) in cases.iter().take(k).enumerate() {
+        let (nid, pid) = (format!("n{i:05}"), format!("p{i:05}"));
+        if out.compile_failed.contains_key(&pid) {
+            // the program proper (same item, same bounds) is judged by the main leg; nothing to learn from this probe
+            ctx.class("static_probe:twin_does_not_compile");
+            continue;
+        }
+        ctx.count_eval();
+        match out.compile_failed.get(&nid) {
+            Some(d) => {
+                let lifetime = d.iter().any(|x| ["E0521", "E0597", "E0759", "E0477", "E0310", "E0311", "E0716"].contains(&x.code.as_str()) || x.message.contains("lifetime") || x.message.contains("borrowed data escapes") || x.message.contains("does not live long enough"));
+                if !lifetime {
+                    crate::ev::inconclusive(&format!("'static probe failed with an unrelated error: {} -- {}", d.first().map(|x| x.rendered.clone()).unwrap_or_default(), c.summary));
+                }
+                ctx.class("static_probe:non_static_app_rejected");
+            }
+            None => {
+                let mut b = Batch::new("c04-static-single", Opts { feature_unimock, members: 1, check_only: true, ..Default::default() });
+                b.add("c00000", c.static_probe.0.clone());
+                let o = b.build_and_run();
+                b.cleanup();
+                if o.compile_failed.is_empty() {
+                    ctx.violation(
+                        &format!("the generated impl exists for an application type that is not `'static` (`Impl<XBorrowed<'a>>: TheTrait` accepted for a caller-chosen 'a) -- in {}", c.summary),
+                        &json!({"engine": "E2", "kind": "static", "feature_unimock": feature_unimock, "src": c.static_probe.0, "summary": c.summary}),
+                    );
+                    return false;
+                }
+                ctx.class("static_probe:non_static_app_rejected");
+            }
+        }
+    }
+    true
+}
+
 pub fn replay(ctx: &mut Ctx, v: &Value) {
     let feature_unimock = v.get("feature_unimock").and_then(|b| b.as_bool()).unwrap_or(false);
     ctx.count_eval();
+    if super::s(v, "kind") == "static" {
+        let mut b = Batch::new("c04-static-replay", Opts { feature_unimock, members: 1, check_only: true, ..Default::default() });
+        b.add("c00000", super::s(v, "src"));
+        let o = b.build_and_run();
+        b.cleanup();
+        if o.compile_failed.is_empty() {
+            ctx.violation("the generated impl exists for an application type that is not `'static`", v);
+        }
+        return;
+    }
     match run_single("c04-replay", feature_unimock, &super::s(v, "src")) {
         None => ctx.violation("replayed program does not compile (declared bound dropped?)", v),
         Some((st, msg)) => {
